@@ -341,6 +341,14 @@ class Renderer:
                                     nxt.append(l + [tx])
                         lists = nxt[:self.cap]
                     return [sep.join(l) for l in lists]
+                # `coll.iter().map(|x| <element>).collect::<..>()` (possibly through `?`): one symbolic element
+                src2 = vt.unvar(v.get('recv'))
+                while isinstance(src2, dict) and (src2.get('k') in ('try', 'some', 'paren', 'ref') or (src2.get('k') == 'call' and src2.get('f') in ('collect', 'collect_vec', 'iter', 'into_iter', 'cloned', 'copied', 'to_vec', 'as_slice', 'sorted', 'peekable') and src2.get('recv') is not None)):
+                    src2 = vt.unvar(src2.get('v') if src2.get('k') != 'call' else src2.get('recv'))
+                if isinstance(src2, dict) and src2.get('k') == 'call' and src2.get('f') in ('map', 'filter_map') and src2.get('args'):
+                    clo = vt.strip(src2['args'][0])
+                    if isinstance(clo, dict) and clo.get('k') == 'closure' and isinstance(clo.get('body'), dict):
+                        return self.render(clo['body'], depth + 1)[:self.cap]
                 return ['⟨join⟩']
             rc = self.T.canon(v['recv']) if isinstance(v.get('recv'), dict) else None
             from .emit import OWNERS, IDENT_TRANSPARENT
@@ -350,6 +358,18 @@ class Renderer:
                 if f in ('format_type', 'format_simple_type', 'format_generic_type', 'format_special_type', 'generic_constraints', 'type_override') or not v.get('args'):
                     return ['⟨' + f + '⟩']
                 return ['⟨' + f + ':' + s_.strip('⟨⟩') + '⟩' if s_.count('⟨') <= 1 else '⟨' + f + ':' + s_ + '⟩' for s_ in self.render(v['args'][0], depth + 1)]
+            if f in ('Ok', 'Some') and v.get('recv') is None and len(v.get('args', [])) == 1:
+                return self.render(v['args'][0], depth + 1)
+            pm = getattr(self.T, 'pure_methods', {}).get(f)
+            if pm and v.get('recv') is not None and depth < 30:
+                from . import inline as _inl
+                from .emit import subst
+                r0 = vt.unvar(v['recv'])
+                cands = [m for m in pm if isinstance(r0, dict) and r0.get('k') == 'atom' and not r0.get('path') and (r0.get('root_ty') or '').split('<')[0] == (m.get('self_ty') or '').split('<')[0]]
+                if len(cands) == 1 and f not in _inl.ANCHORS and not cands[0].get('loops') and cands[0].get('tail') is not None:
+                    params = [p['name'] for p in cands[0]['params'] if p['name'] != 'self']
+                    if len(params) == len(v.get('args', [])):
+                        return self.render(subst(cands[0]['tail'], dict(zip(params, v['args']))), depth + 1)
             if f in self.inline and v.get('recv') is None:
                 fn = self.inline[f]
                 from .emit import subst
